@@ -362,7 +362,7 @@ def _exec_step(job, case, st, done_steps, res, head_tree):
         for p, k in ents:
             if any(unsafe.get((c, prot["ntfs"], prot["hfs"]), False) for c in p):
                 viol.append({"sig": f"{SITE[op]}|UnsafeRefused|unsafe path {'/'.join(p)!r} accepted ntfs={int(prot['ntfs'])} hfs={int(prot['hfs'])}",
-                             "step": i, "what": f"{ENTRY[op]} reported success for a tree with the unsafe path {'/'.join(p)!r}: {seqtxt}"})
+                             "step": i, "what": f"{ENTRY[op]} reported success for a {'patch' if op == 'MV' else 'tree'} with the unsafe path {'/'.join(p)!r}: {seqtxt}"})
     if op in ("CL", "RH", "RM") or (op in ("CO", "COF") and outcome == "ok"):
         head_tree = tree
     res["behaviours"] += 1
